@@ -46,6 +46,14 @@ var ghostNoReply map[*Request]bool
 // which owns the buffer from then on (reset by Request.Read, set by Request.Process)
 var ghostHandedOver map[*Request]bool
 
+// package state the protocol functions rely on: the error values exist, the configured maximum
+// value size fits the record format, the counters are in a sane range
+func protoOK() bool {
+	return ErrNetworkError != nil && ErrInvalidCmd != nil && ErrValueTooLarge != nil && ErrOOM != nil && ErrBadDataChunk != nil && ErrNonMemcacheCmd != nil &&
+		0 <= config.MCConf.BodyMax && config.MCConf.BodyMax < 1<<31 &&
+		cmem.DBRL.SetData.Count >= 0 && cmem.DBRL.SetData.Count < 1<<40 && cmem.DBRL.SetData.Size >= 0 && cmem.DBRL.SetData.Size < 1<<60
+}
+
 // ---------- verified ----------
 
 // the per-connection request object carries nothing over to the next command
@@ -71,9 +79,7 @@ var ghostHandedOver map[*Request]bool
 //@   props C11 C12
 //@   ints bv
 //@   requires b != nil && ghostNoReply != nil && ghostHandedOver != nil && RL != nil && req.Item == nil && !req.NoReply
-//@   requires ErrNetworkError != nil && ErrInvalidCmd != nil && ErrValueTooLarge != nil && ErrOOM != nil && ErrBadDataChunk != nil && ErrNonMemcacheCmd != nil
-//@   requires 0 <= config.MCConf.BodyMax && config.MCConf.BodyMax < 1<<31
-//@   requires cmem.DBRL.SetData.Count >= 0 && cmem.DBRL.SetData.Count < 1<<40 && cmem.DBRL.SetData.Size >= 0 && cmem.DBRL.SetData.Size < 1<<60
+//@   requires protoOK()
 //@   modifies all(req), ghostNoReply[req], ghostHandedOver[req], ghostFail(), ghostClock(), ghostReader(b), cmem.DBRL.SetData.Size, cmem.DBRL.SetData.MaxSize, cmem.DBRL.SetData.Count, cmem.DBRL.SetData.MaxCount, cmem.AllocRL.Size, cmem.AllocRL.MaxSize, cmem.AllocRL.Count, cmem.AllocRL.MaxCount
 //@   ensures [assumed] ghostNoReply[req] == (result0 == nil && req.NoReply) && !ghostHandedOver[req]
 //@   ensures req.Item != nil ==> fresh(req.Item)
@@ -140,7 +146,7 @@ var ghostHandedOver map[*Request]bool
 //@   props C11 C12
 //@   ints bv
 //@   requires c.req != nil && c.rbuf != nil && c.wbuf != nil && storageClient != nil && stats != nil && ghostNoReply != nil && ghostHandedOver != nil && RL != nil && accessLogger != nil
-//@   requires streamFlushed(c.wbuf) == streamLen(c.wbuf) && !c.closeAfterReply && c.req.Item == nil && !c.req.NoReply
+//@   requires streamFlushed(c.wbuf) == streamLen(c.wbuf) && !c.closeAfterReply && c.req.Item == nil && !c.req.NoReply && protoOK()
 //@   modifies *
 //@   ensures err == nil && !c.closeAfterReply ==> streamFlushed(c.wbuf) == streamLen(c.wbuf)
 //@   ensures err == nil && !c.closeAfterReply ==> streamLen(c.wbuf) > old(streamLen(c.wbuf)) || ghostNoReply[c.req]
